@@ -81,6 +81,16 @@ class NpShadow:
             return x.floor()
         return np.floor(x)
 
+    def round(self, x, *a):
+        if isinstance(x, SymFP):
+            return round(x)
+        return np.round(x, *a)
+
+    def ceil(self, x):
+        if isinstance(x, SymFP):
+            return SymFP(z3.fpRoundToIntegral(z3.RTP(), x.t))
+        return np.ceil(x)
+
 
 def w_range(cfg, tier):
     """cfg = 'range k=<k> j=<j> c=<c> r=<r>': min = a/10^k (a symbolic), step = c/10^k,
